@@ -14,17 +14,18 @@ import (
 // C09 — open subject paths are cut exactly at the clip region boundary.
 
 var c09Specs = []famSpec{
-	{Family: "open-dense", Pool: 100000, PoolQ: 8000},
-	{Family: "open-lattice", Pool: 60000, PoolQ: 6000},
-	{Family: "open-wide-snap", Pool: 60000, PoolQ: 3000},
-	{Family: "open-wide", Pool: 100000, PoolQ: 5000},
+	{Family: "open-dense", FreshQ: 8000, FreshT: 100000},
+	{Family: "open-lattice", FreshQ: 6000, FreshT: 60000},
+	{Family: "open-wide-snap", FreshQ: 3000, FreshT: 60000},
+	{Family: "open-wide", FreshQ: 5000, FreshT: 100000},
 	{Family: "open-nested", FreshQ: 4000, FreshT: 200000},
+	{Family: "open-big", FreshQ: 150, FreshT: 4000},
 }
 
 func init() {
 	register(&run.Prop{
 		ID: "C09",
-		Rule: "case = open subject polylines (horizontal runs, vertices snapped to clip vertices / edge midpoints) + closed clip set (+ optional closed subject set) from the rand-dense, lattice, rand-wide and nested generators; executed with Intersection, Union, Difference, Xor under 2 fill rules per case through Clipper64.ExecuteOC (and ClipperD on the same integers for one of them). " +
+		Rule: "case = open subject polylines (horizontal runs, vertices snapped to clip vertices / edge midpoints) + closed clip set (+ optional closed subject set) from the rand-dense, lattice, rand-wide and nested generators, open-big: 3..8 polylines of 20..80 vertices against curves of 200..1000 vertices or 20..40 polygons; executed with Intersection, Union, Difference, Xor under 2 fill rules per case through Clipper64.ExecuteOC (and ClipperD on the same integers for one of them). " +
 			"Checked: every open-solution vertex within 1.5 units (intersection points are truncated, not rounded) of a subject line; sampled points of the subject lines that are > 2 units from every closed input edge are covered by the open solution (distance <= 1.5) exactly when the predicate for the clip type holds (inside clip for Intersection, outside clip for Difference/Xor, outside both closed regions for Union), winding exact; " +
 			"the closed solution equals, outside the band, the closed solution of the execution without open paths. Non-trivial = at least one sample covered and one not covered; distinct by input digest.",
 		Assumptions: []string{"exact winding of sample points about the closed inputs; coverage by float distance; zero-length open segments are skipped and counted"},
@@ -53,6 +54,30 @@ func openInput(id run.CaseID) openCase {
 		R = 9 * sc
 	case "open-wide", "open-wide-snap":
 		oc.Subject, oc.Clip, R = gen.RandWide(r)
+	case "open-big": // clip curves of 200..1000 vertices (or 20..40 star polygons) cut by 3..8 polylines of 20..80 vertices
+		R = gen.PickOf(r, int64(1000000), 1<<27)
+		if r.Bool() { // simple closed curves: the closed solution is not the subject of this property (C01 covers self-intersecting curves)
+			oc.Clip = Paths{gen.StarPoly(r, r.Range(-R/4, R/4), r.Range(-R/4, R/4), float64(R)*0.5, float64(R)*0.8, 200+r.Intn(801), r.Bool())}
+			if r.Bool() {
+				oc.Clip = append(oc.Clip, gen.StarPoly(r, r.Range(-R/4, R/4), r.Range(-R/4, R/4), float64(R)*0.2, float64(R)*0.4, 100+r.Intn(300), r.Bool()))
+			}
+		} else {
+			for k := 0; k < 20+r.Intn(21); k++ {
+				oc.Clip = append(oc.Clip, gen.StarPoly(r, r.Range(-R, R), r.Range(-R, R), float64(R)*0.05, float64(R)*0.3, 3+r.Intn(12), r.Bool()))
+			}
+		}
+		for k := 0; k < 3+r.Intn(6); k++ {
+			n := 20 + r.Intn(61)
+			ln := make(Path, n)
+			for i := range ln {
+				ln[i] = Pt{X: r.Range(-R, R), Y: r.Range(-R, R)}
+				if i > 0 && r.Chance(0.15) { // horizontal runs, some doubling back on themselves
+					ln[i].Y = ln[i-1].Y
+				}
+			}
+			oc.Open = append(oc.Open, ln)
+		}
+		return oc
 	default:
 		Rf := gen.PickOf(r, 60.0, 500.0, 20000.0, 3.0e6)
 		R = int64(Rf)
@@ -67,26 +92,9 @@ func openInput(id run.CaseID) openCase {
 	}
 	snap := append(gen.Clone(oc.Clip), oc.Subject...)
 	if id.Family == "open-wide" || id.Family == "open-nested" {
-		snap = nil // open paths that start/bend exactly on a closed-path vertex live in the pool families (open-wide-snap)
+		snap = nil
 	}
 	oc.Open = gen.Polylines(r, 1+r.Intn(3), R+R/4, snap)
-	if id.Family == "open-wide" || id.Family == "open-nested" {
-		// fresh families: no horizontal run that doubles back on itself (a collinear 180-degree spike on one scanline);
-		// those live in the closed pools, where the engine's handling of them is a listed finding
-		for _, ln := range oc.Open {
-			for i := 2; i < len(ln); i++ {
-				if ln[i-2].Y == ln[i-1].Y && ln[i-1].Y == ln[i].Y {
-					dir := int64(1)
-					if ln[i-1].X < ln[i-2].X {
-						dir = -1
-					}
-					if (ln[i].X-ln[i-1].X)*dir <= 0 {
-						ln[i].X = ln[i-1].X + dir*(1+r.Range(0, R/4))
-					}
-				}
-			}
-		}
-	}
 	return oc
 }
 
@@ -155,8 +163,9 @@ func c09Run(ctx *run.Ctx, id run.CaseID) {
 			if k == 0 && ct == clip.Intersection {
 				addCounts(ctx, rec)
 			}
+			class := ""
 			fail := func(sub, detail string) {
-				ctx.Fail(digest, sub+"/"+tag, "", fmt.Sprintf("%s; open=%v closedSubject=%v clip=%v openSolution=%v closedSolution=%v", detail, oc.Open, oc.Subject, oc.Clip, open, closed), oc)
+				ctx.Fail(digest, sub+"/"+tag, class, fmt.Sprintf("%s; open=%v closedSubject=%v clip=%v openSolution=%v closedSolution=%v", detail, oc.Open, oc.Subject, oc.Clip, open, closed), oc)
 			}
 			if !ok {
 				fail("execute-false", "ExecuteOC returned false")
@@ -221,7 +230,22 @@ func c09Run(ctx *run.Ctx, id run.CaseID) {
 				w2, o2 := oracle.Winding(closedOnly, p)
 				ctx.Count("closed_points_compared", 1)
 				if (w1 != 0 || o1) != (w2 != 0 || o2) {
+					// the open paths add scanlines (and nothing else) to the sweep of the closed paths; where the closed-only
+					// result is itself fragile (KF repair-discarded-loop: a join / repair event triangle), one more scanline can
+					// change which sliver is dropped. Attributable only if the witness lies in such an event triangle of one
+					// of the two executions.
+					cls := ""
+					evs := discardEventsAdds([]*addOp{{Paths: oc.Subject, Type: int(clip.Subject)}, {Paths: oc.Clip, Type: int(clip.Clip)}}, ct, fr)
+					evs = append(evs, discardEventsAdds([]*addOp{{Paths: oc.Open, Type: int(clip.Subject), Open: true}, {Paths: oc.Subject, Type: int(clip.Subject)}, {Paths: oc.Clip, Type: int(clip.Clip)}}, ct, fr)...)
+					for _, t := range evs {
+						if t.containsInflated(p, 2.5) {
+							cls = "repair-discarded-loop"
+						}
+					}
+					defer func() { class = "" }()
+					class = cls
 					fail("closed-altered", fmt.Sprintf("closed solution differs at %s from the execution without open paths: %v vs %v", fmtPt(p), closed, closedOnly))
+					class = ""
 					break
 				}
 			}
